@@ -496,7 +496,7 @@ func main() {
 		kf, _ := os.ReadFile(filepath.Join(root, "known_findings.json"))
 		os.WriteFile(filepath.Join(subRoot, "known_findings.json"), kf, 0644)
 		for _, sub := range []string{"c13", "c12", "c01"} {
-			out, err := sh(subRoot, []string{"VERIF_ROOT=" + subRoot, "VERIF_REPO=" + tree}, bin, sub, "-tier", "quick", "-specs", strings.Join(specs, ","), "-nomap-vocab", "VerifExt")
+			out, err := sh(subRoot, []string{"VERIF_ROOT=" + subRoot, "VERIF_REPO=" + tree}, bin, sub, "-tier", "quick", "-specs", strings.Join(specs, ","))
 			code := 0
 			if ee, ok := err.(*exec.ExitError); ok {
 				code = ee.ExitCode()
